@@ -545,6 +545,15 @@ def effect_canon(f, cells=False):
             eff = any(a["k"] in ("copy", "move") and a["pl"]["ty"].startswith(("&mut", "*mut")) for a in t["args"])
             d = t["dest"]
             named = (bool(f.locals[d["l"]]["name"]) and d["l"] > f.argc) or d["l"] == 0 or bool(d["p"])
+            if named and not eff and not d["p"]:
+                try:
+                    ce = sy.call(t, i)
+                except Exception:
+                    ce = None
+                if ce is not None and ce[0] == "cast":
+                    # `usize::from(x)` for an integer x is the cast `x as usize` (Sym writes both the same way)
+                    lines.append("STORE local:%s = %s" % (f.locals[d["l"]]["name"] or "ret", canon(ce)))
+                    continue
             if eff or named or f.locals[d["l"]]["ty"] == "()":
                 lines.append("CALL%s %s%s(%s)" % ("" if eff or not named else "~", ("local:%s = " % (f.locals[d["l"]]["name"] or "ret")) if named else "", c, ",".join(canon(sy.operand(a)) for a in t["args"])))
         elif t["t"] == "switch":
